@@ -11,7 +11,7 @@ static void explore(Result& R) {
         if (!R.args.mine(unit++)) continue;
         long s0 = R["states"]; rx::explore_l1(R, sd[i], depth); R.tables["L1_states_per_seed"][sd[i].name + "@depth" + std::to_string(depth)] = R["states"] - s0; if (!R.internal_error.empty()) return; }
     R["L1_states"] = R["states"]; R["L1_transitions"] = R["transitions"];
-    for (size_t i = 0; i < sd.size(); i++) { int depth = th ? 4 : 3; if (i >= 2 && !th) depth = 2;
+    for (size_t i = 0; i < sd.size(); i++) { int depth = th ? 4 : 3; if (i >= 2 && !th) depth = 2; if (th && sd[i].name == "icosahedron") depth = 3;   /* 12-vertex seed: depth 4 does not complete inside the deadline */
         if (!R.args.mine(unit++)) continue;
         long s0 = R["states"]; rx::explore_l2(R, sd[i], depth); R.tables["L2_states_per_seed"][sd[i].name + "@depth" + std::to_string(depth)] = R["states"] - s0; if (!R.internal_error.empty()) return; }
     R["L2_states"] = R["states"] - R["L1_states"]; R["L2_transitions"] = R["transitions"] - R["L1_transitions"];
